@@ -116,8 +116,16 @@ func (k Keeper) CreateRequestContext(
 		batchState, state, responseThreshold, moduleName,
 	)
 
-	txHash := ctx.Context().Value(types.TxHash).([]byte)
-	msgIndex := ctx.Context().Value(types.MsgIndex).(int64)
+	// the host application provides the hash of the transaction and the index of the message being handled
+	txHash, ok := ctx.Context().Value(types.TxHash).([]byte)
+	if !ok {
+		return nil, sdkerrors.Wrap(types.ErrInvalidRequestContextID, "transaction hash not found in the context")
+	}
+
+	msgIndex, ok := ctx.Context().Value(types.MsgIndex).(int64)
+	if !ok {
+		return nil, sdkerrors.Wrap(types.ErrInvalidRequestContextID, "message index not found in the context")
+	}
 	requestContextID := types.GenerateRequestContextID(txHash, msgIndex)
 	k.SetRequestContext(ctx, requestContextID, requestContext)
 
